@@ -90,4 +90,52 @@ def run_case(ruledir, om, rng, targets, warm):
             fresh = real_enum(grammar, t, Optimizer(max_length=4))
             if fresh != gs:
                 viol.append({'property': 'C10', 'kind': 'cache-dependence', 'target': t})
+    # the memo table itself: a random sequence of `_fill_out_parse_tree` calls on one shared Optimizer, results and final
+    # table compared with the model's `fillC` (whose agreement with the table-free `fill` is the theorem `fillC_eq_fill`)
+    fo, fe, fv = fillc_stream(grammar, om, rng)
+    ops += fo
+    exp += fe
+    viol += fv
+    stats['fillc_calls'] = sum(len(o.split(' ')) - 2 for o in fo)
     return {'ops': ops, 'expected': exp, 'violations': viol, 'stats': stats}
+
+
+def _tree(t):
+    if t is None:
+        return 'none'
+    if not t:
+        return '[]'
+    return ';'.join(f"{enc(it[0])}/{it[1]}/{it[2]}" for it in t)
+
+
+def fillc_stream(grammar, om, rng, ncalls=12):
+    from lib_guesser.omen.optimizer import Optimizer
+    from lib_guesser.omen.guess_structure import GuessStructure
+    n = om['ngram']
+    maxlen = rng.choice([1, 2, 3, 4])
+    opt = Optimizer(max_length=maxlen)
+    prefixes = sorted({x for _, x in om['ip']} | {x[:-1] for _, x in om['cp']} | {om['alphabet'][0] * (n - 1)})
+    calls, res, viol = [], [], []
+    gs = GuessStructure(cp=grammar['cp'], max_level=grammar['max_level'], ip=prefixes[0], cp_length=1, target_level=0, optimizer=opt)
+    fresh_gs = lambda: GuessStructure(cp=grammar['cp'], max_level=grammar['max_level'], ip=prefixes[0], cp_length=1,
+                                      target_level=0, optimizer=Optimizer(max_length=maxlen))
+    for _ in range(ncalls):
+        ln = rng.randint(1, 5)
+        ip = rng.choice(prefixes)
+        tgt = rng.choice([0, 0, 1, 2, 3, 4, 6, 10, 12])
+        if calls and rng.random() < 0.3:
+            ln, ip, tgt = rng.choice(calls)          # a repeated call: answered from the table
+        r = gs._fill_out_parse_tree(ip, ln, tgt)
+        r0 = fresh_gs()._fill_out_parse_tree(ip, ln, tgt)
+        if r != r0:
+            viol.append({'property': 'C10', 'kind': 'cache-dependence', 'call': [ln, ip, tgt], 'with_history': _tree(r), 'fresh': _tree(r0),
+                         'history': [list(c) for c in calls]})
+        calls.append((ln, ip, tgt))
+        res.append(_tree(r))
+    table = []
+    for ln, d in enumerate(opt.tmto_lookup):
+        for ip, lv in d.items():
+            for tgt, tree in lv.items():
+                table.append(f"{enc(ip)},{ln},{tgt}={_tree(tree)}")
+    op = ' '.join(['omen.fillc', str(maxlen)] + [f"{ln},{enc(ip)},{tgt}" for ln, ip, tgt in calls])
+    return [op], [' '.join(res) + ' | ' + ' '.join(sorted(table))], viol
